@@ -175,6 +175,7 @@ type verifLBMPut struct {
 	finalOK  bool
 	finalRun int
 	finalRot int // rotations that had happened when the finalizer reported loc
+	data     []byte // what the put writer copied
 }
 
 type verifLBM struct {
@@ -249,9 +250,10 @@ func (m *verifLBM) Put(sizeBytes int64) (LocationBlobPutWriter, error) {
 		}
 		p.consumed = true
 		data, err := b.ToByteSlice(1 << 20)
-		if err == nil && string(data) != string(verifObjData) {
+		if err == nil && m.objects == nil && string(data) != string(verifObjData) {
 			vnd.Unreachable("refresh copied bytes that differ from the object")
 		}
+		p.data = data
 		p.copyErr = err
 		return func() (Location, error) {
 			verifRequireLock(m.lock, true, "LocationBlobPutFinalizer")
@@ -751,4 +753,117 @@ func verifScenarioHierTouch(findMissing bool) {
 	vnd.Assert(len(lbm.puts) == p0, "repeating a touch allocated space again")
 	vnd.Assert(len(klm.puts) == k0, "repeating a touch wrote the index again")
 	vnd.Observe("htouch", uint64(p0), uint64(k0))
+}
+
+
+// ---------------------------------------------------------------------------
+// Scenario: hierarchicalCASBlobAccess.FindMissing over TWO digests (same
+// instance name, different objects) with every outcome at every call symbolic:
+// each index write made on behalf of one object is filed under a key of THAT
+// object and carries a location holding THAT object's bytes.
+// ---------------------------------------------------------------------------
+
+var (
+	verifHier2DataA   = []byte("pq")
+	verifHier2DataB   = []byte("rs")
+	verifHier2DigestA = verifHier2Digest(verifHier2DataA)
+	verifHier2DigestB = verifHier2Digest(verifHier2DataB)
+)
+
+func verifHier2Digest(data []byte) digest.Digest {
+	g := digest.MustNewFunction("a", remoteexecution.DigestFunction_MD5).NewGenerator(int64(len(data)))
+	g.Write(data)
+	return g.Sum()
+}
+
+func verifScenarioHierFindMissingTwo() {
+	h := &verifHier{klm: &verifKLM{fixed: true}, lbm: &verifLBM{kind: 0}, lock: &sync.RWMutex{}}
+	h.klm.lock, h.lbm.lock = h.lock, h.lock
+	h.lbm.objects = map[digest.Digest][]byte{verifHier2DigestA: verifHier2DataA, verifHier2DigestB: verifHier2DataB}
+	h.ba = NewHierarchicalCASBlobAccess(h.klm, h.lbm, h.lock, nil).(*hierarchicalCASBlobAccess)
+	ctx := context.Background()
+	set := digest.NewSetBuilder(2).Add(verifHier2DigestA).Add(verifHier2DigestB).Build()
+	missing, err := h.ba.FindMissing(ctx, set)
+	for _, s := range h.lbm.sources {
+		vnd.Assert(s.closes == 1, "a block reader opened by FindMissing was not closed exactly once")
+	}
+	for _, p := range h.lbm.puts {
+		vnd.Assert(p.consumed && p.finalRun == 1, "allocated space whose writer/finalizer did not run exactly once")
+	}
+	digests := []digest.Digest{verifHier2DigestA, verifHier2DigestB}
+	datas := [][]byte{verifHier2DataA, verifHier2DataB}
+	for _, w := range h.klm.puts {
+		owner := -1
+		for i, d := range digests {
+			if w.key == getCanonicalKey(d) {
+				owner = i
+			}
+			for _, k := range getAllLookupKeys(d) {
+				if w.key == k {
+					owner = i
+				}
+			}
+		}
+		if owner < 0 {
+			vnd.Unreachable("index entry written under a key of neither requested object")
+			continue
+		}
+		canonical := getCanonicalKey(digests[owner])
+		// Provenance is judged by value (locations are symbolic): the entry is right if its
+		// location is that of a successful copy of the OWNER's bytes, or - lookup entries only -
+		// the owner's canonical location as last read under the lock.
+		ownCopy := false
+		for _, p := range h.lbm.puts {
+			if p.finalOK && string(p.data) == string(datas[owner]) {
+				ownCopy = vnd.Or(ownCopy, p.loc == w.loc)
+			}
+		}
+		fromCanonical := false
+		if w.key != canonical {
+			lastCanonical := -1
+			for i, g := range h.klm.history {
+				if g.key == canonical && g.kind == 0 {
+					lastCanonical = i
+				}
+			}
+			if lastCanonical >= 0 {
+				fromCanonical = h.klm.history[lastCanonical].loc == w.loc
+			}
+		}
+		vnd.Assert(vnd.Or(ownCopy, fromCanonical), "an index entry of one object carries a location that is neither a fresh copy of ITS bytes nor its own canonical location (e.g. a copy of another object's bytes)")
+	}
+	// every copy was made from a getter for the object whose bytes it holds
+	for i, d := range h.lbm.getCalls {
+		_ = i
+		vnd.Assert(d == verifHier2DigestA || d == verifHier2DigestB, "a getter was invoked for a digest that was not requested")
+	}
+	if err == nil {
+		vnd.Cover("findmissing2-ok")
+		vnd.Assert(missing.Length() <= 2, "more digests reported missing than were asked about")
+		// quiescent index: an object is reported missing iff none of its lookup keys answers
+		for _, d := range digests {
+			present := false
+			for _, k := range getAllLookupKeys(d) {
+				if kind, ok := h.klm.fixedKind[k]; ok && kind == 0 {
+					present = true
+				}
+			}
+			isMissing := false
+			for _, m := range missing.Items() {
+				if m == d {
+					isMissing = true
+				}
+			}
+			vnd.Assert(isMissing == !present, "FindMissing answer for one of two objects differs from the index")
+		}
+	} else {
+		vnd.Cover("findmissing2-failed")
+	}
+	if len(h.lbm.puts) == 2 {
+		vnd.Cover("findmissing2-both-refreshed")
+	}
+	if len(h.lbm.puts) == 1 {
+		vnd.Cover("findmissing2-one-refreshed")
+	}
+	vnd.Observe("hfm2", uint64(len(h.lbm.puts)), uint64(len(h.klm.puts)))
 }
